@@ -587,7 +587,7 @@ impl Interp {
         }
     }
 
-    fn build_publish(&mut self, topic: String, n: u8, payload: &Payload) -> (Req, Vec<PubsubMessage>) {
+    fn build_publish(&mut self, topic: String, n: u32, payload: &Payload) -> (Req, Vec<PubsubMessage>) {
         let mut mkeys = Vec::new();
         let mut msgs = Vec::new();
         let mut sh = self.sh.lock().unwrap();
@@ -982,8 +982,12 @@ impl Interp {
                 .await;
             }
             Op::Walk { kind, p, t, size } => self.walk(i, *kind % 3, *p, *t, *size).await,
+            Op::PublishMany { t, n, a } => {
+                let (req, msgs) = self.build_publish(t.name(), *n, &Payload::plain());
+                self.run_call(i, req, msgs, *a).await;
+            }
             Op::Publish { t, n, payload, a } => {
-                let (req, msgs) = self.build_publish(t.name(), *n, payload);
+                let (req, msgs) = self.build_publish(t.name(), *n as u32, payload);
                 self.run_call(i, req, msgs, *a).await;
             }
             Op::Pull { s, max, ri, a } => {
@@ -1151,7 +1155,7 @@ impl Interp {
                 }
             }
             Op::RawPublish { topic, n, a } => {
-                let (req, msgs) = self.build_publish(topic.clone(), *n, &Payload::plain());
+                let (req, msgs) = self.build_publish(topic.clone(), *n as u32, &Payload::plain());
                 self.run_call(i, req, msgs, *a).await;
             }
             Op::StreamOpenRaw { sub, max_out } => {
@@ -1294,7 +1298,7 @@ impl Interp {
             Op::ListTopicSubs { t, size, .. } => {
                 (Req::ListTopicSubs { topic: t.name(), size: *size, token: String::new() }, vec![])
             }
-            Op::Publish { t, n, payload, .. } => self.build_publish(t.name(), *n, payload),
+            Op::Publish { t, n, payload, .. } => self.build_publish(t.name(), *n as u32, payload),
             Op::Pull { s, max, ri, .. } => {
                 self.note_names(Some(&s.name()), None);
                 (Req::Pull { sub: s.name(), max: *max, ri: *ri }, vec![])
